@@ -3,6 +3,10 @@ import json, os, sys
 HERE = os.path.dirname(os.path.dirname(os.path.abspath(__file__)))
 
 CHECKS = {
+    "C10": ("model_checking", "3 C10",
+            "Every deduplicated IH5MFRecord state of the bounded tree exploration gets a stub from its newest manifest: skeleton equality (own scan), all-empty, merge refusal; every existence-based update history (1-2 ops of the alphabet) is applied once through the stub (patch then opened with the real files) and once directly, outcomes and views compared; after every commit the manifest bytes/uuid/skeleton are checked against the user block and the record; manifest_exts inheritance chain.",
+            "Directly patched record is the reference; existence-based updates = set/create_group/delete/setattr/delattr/require_group; bounded depth/alphabet.",
+            "explicit-state enumeration of record states x exhaustive update histories on the real code"),
     "C04": ("fault_enumeration", "3 C04",
             "For every deduplicated valid record of the bounded tree exploration (1-3 containers, both classes) every single corruption of the catalogue (each payload byte and each byte of the newest manifest XOR/+1, truncations, extensions, removal of each element, foreign/forked/duplicated containers, manifest removed/foreign/older) is applied to a copy; open('r') must fail iff the set is incoherent, and coherent prefixes/forks must open with the state at their commit.",
             "Coherence predicate is computed by the harness from how it built the set; user-block bytes are not in the property's corruption list; quick tier enumerates bytes for 4 records, thorough for all.",
